@@ -22,6 +22,13 @@ import (
 // map (where each key-value pair counts as two items).
 const MaxArrayDecodeLength = 100_000
 
+// MaxDecodeDepth limits how deeply arrays, maps and tags may be nested in
+// decoded data. Without a limit a few kilobytes of nested containers cost
+// quadratic time and memory to decode.
+const MaxDecodeDepth = 128
+
+var errMaxDepth = fmt.Errorf("nesting exceeds max depth: %d", MaxDecodeDepth)
+
 // Major types (high 3 bits)
 const (
 	unsignedIntMajorType byte = 0x00
@@ -222,6 +229,9 @@ func Unmarshal(data []byte, v any) error {
 type Decoder struct {
 	r io.Reader
 
+	// current nesting depth of arrays, maps and tags
+	depth int
+
 	DecoderOptions
 }
 
@@ -309,6 +319,11 @@ func (d *Decoder) decodeRawVal(highThreeBits, lowFiveBits byte, additional []byt
 		if err != nil {
 			return nil, err
 		}
+		if d.depth >= MaxDecodeDepth {
+			return nil, errMaxDepth
+		}
+		d.depth++
+		defer func() { d.depth-- }()
 
 		decoded := head
 		for i := range length {
@@ -322,6 +337,11 @@ func (d *Decoder) decodeRawVal(highThreeBits, lowFiveBits byte, additional []byt
 
 	// Tag types are decoded like a simple value followed by another value
 	case tagMajorType:
+		if d.depth >= MaxDecodeDepth {
+			return nil, errMaxDepth
+		}
+		d.depth++
+		defer func() { d.depth-- }()
 		wrapped, err := d.decodeRaw()
 		if err != nil {
 			return nil, err
@@ -417,9 +437,19 @@ func (d *Decoder) decodeVal(rv reflect.Value) error {
 		allocateInterface(rv, reflect.TypeOf(""))
 		return d.decodeByteSlice(rv, additional)
 	case arrayMajorType:
+		if d.depth >= MaxDecodeDepth {
+			return errMaxDepth
+		}
+		d.depth++
+		defer func() { d.depth-- }()
 		allocateInterface(rv, reflect.TypeOf([]any(nil)))
 		return d.decodeArray(rv, additional)
 	case mapMajorType:
+		if d.depth >= MaxDecodeDepth {
+			return errMaxDepth
+		}
+		d.depth++
+		defer func() { d.depth-- }()
 		allocateInterface(rv, reflect.TypeOf(map[any]any(nil)))
 		return d.decodeMap(rv, additional)
 	case tagMajorType:
@@ -750,12 +780,19 @@ func (d *Decoder) decodeArrayToSlice(rv reflect.Value, additional []byte) error 
 	if length > math.MaxInt || length >= MaxArrayDecodeLength {
 		return fmt.Errorf("array exceeds max size: %d", length)
 	}
+	// Slices are grown while items are decoded instead of being allocated up
+	// front, so that memory use is bounded by the data actually present rather
+	// than by the length the (untrusted) input merely claims.
+	growing := false
 	slice := rv
 	switch slice.Kind() {
 	case reflect.Slice:
-		// Set slice to the correct length
-		slice.Grow(int(length))
-		slice.SetLen(int(length))
+		if int(length) <= slice.Cap() {
+			slice.SetLen(int(length))
+		} else {
+			slice.SetLen(0)
+			growing = true
+		}
 
 	case reflect.Array:
 		// Check array is long enough and clear extra elements
@@ -768,8 +805,17 @@ func (d *Decoder) decodeArrayToSlice(rv reflect.Value, additional []byte) error 
 		}
 
 	case reflect.Interface:
-		slice.Set(reflect.MakeSlice(slice.Elem().Type(), int(length), int(length)))
-		slice = slice.Elem()
+		// The interface's slice is not addressable: decode into a local slice
+		// and store it when complete
+		local := reflect.New(slice.Elem().Type()).Elem()
+		if err := d.decodeArrayToSlice(local, additional); err != nil {
+			return err
+		}
+		if local.IsNil() {
+			local = reflect.MakeSlice(local.Type(), 0, 0)
+		}
+		slice.Set(local)
+		return nil
 
 	default:
 		return fmt.Errorf("%w: expected a slice type",
@@ -782,6 +828,12 @@ func (d *Decoder) decodeArrayToSlice(rv reflect.Value, additional []byte) error 
 		newVal := reflect.New(itemType)
 		if err := d.Decode(newVal.Interface()); err != nil {
 			return fmt.Errorf("error decoding array item %d: %w", i, err)
+		}
+		if growing {
+			if i >= slice.Cap() {
+				slice.Grow(min(int(length)-i, max(slice.Cap(), 8)))
+			}
+			slice.SetLen(i + 1)
 		}
 		slice.Index(i).Set(newVal.Elem())
 	}
